@@ -119,6 +119,14 @@ def SCall.Valid (c : SCall) : Prop :=
   | .raw s => s.Valid
   | _ => True
 
+/-- the same with variables admitted: a raw / unquoted payload may also be a `@variable` or an
+interpolated `@[…]` expression (`Scal.ValidX` of the text-tape slice) -/
+def SCall.ValidX (c : SCall) : Prop :=
+  match c with
+  | .unq b => (⟨false, b⟩ : Scal).ValidX
+  | .raw s => s.ValidX
+  | _ => True
+
 /-- the typed scalar calls: `write_bool`, `write_i32`, `write_u32`, `write_i64`, `write_u64`,
 `write_date` -/
 def SCall.isTyped : SCall → Prop
